@@ -177,7 +177,7 @@ class HypPart(Part):
         from hypothesis import given, settings, strategies as st, HealthCheck, Phase
         res = new_result()
         tier = ctx['tier']
-        total = self.budget[tier]
+        total = max(1, int(self.budget[tier] * float(os.environ.get('VERIF_BUDGET_SCALE', '1'))))   # (scale < 1: smoke test of a tier)
         nsh = ctx['n_shards']
         n = total // nsh + (1 if ctx['shard'] < total % nsh else 0)
         known = set(ctx['known_keys'])
@@ -270,7 +270,7 @@ class MachinePart(Part):
         from hypothesis.stateful import run_state_machine_as_test
         res = new_result()
         tier = ctx['tier']
-        total = self.budget[tier]
+        total = max(1, int(self.budget[tier] * float(os.environ.get('VERIF_BUDGET_SCALE', '1'))))   # (scale < 1: smoke test of a tier)
         nsh = ctx['n_shards']
         n = total // nsh + (1 if ctx['shard'] < total % nsh else 0)
         if n == 0:
